@@ -8,10 +8,11 @@ LOCAL_POOL = ["L", "w"]
 SIZE_POOL = ["n", "m", "s", "N"]
 # ("in_0z": a child whose connections sort, as strings, BETWEEN those of the routine's own ports in_0 and in_1 -- QREF
 # keeps connections sorted by source, so the connections of one source are not always next to each other)
-CHILD_NAMES = ["a", "b", "c", "d", "in_0z"]
+CHILD_NAMES = ["a", "b", "c", "d", "in_0z", "lambda_p"]
 # (in name order, which is the order QREF keeps them in: G additive, P multiplicative, Q additive, ... -- resources of one type
 # are not always next to each other)
-RES_POOL = [("T", "additive"), ("Q", "additive"), ("P", "multiplicative"), ("info", "other"), ("anc", "qubits"), ("G", "additive")]
+RES_POOL = [("T", "additive"), ("Q", "additive"), ("P", "multiplicative"), ("info", "other"), ("anc", "qubits"), ("G", "additive"),
+            ("lambdas", "additive")]      # a name that merely BEGINS like a reserved word of the expression language
 FUNCS = ["f", "g"]
 COUNT_NAMES = ("K", "R")
 
@@ -349,10 +350,88 @@ class Gen:
         return node, n_out + n_through
 
 
-def gen_hierarchy(rng, **kw):
+def constrain_sizes(root, rng, p=0.3):
+    """Give some subroutines input ports whose declared sizes yield CONSTRAINTS when the routine is compiled: two ports declared
+    with the same size symbol, a port of constant size, a port whose size is a compound expression of another port's size
+    symbol or of a parameter.  Whether the constraint comes out satisfied, inconclusive or violated depends on what arrives."""
+    import json
+    root_consts = [q["size"][1] for q in root["ports"] if q["size"] is not None and q["size"][0] == "n" and q["size"][2] == 1]
+    for nd, path in list(_nodes(root)):
+        if not path or rng.random() >= p:
+            continue
+        bound = set(nd["input_params"]) | {l[0] for l in nd["local_variables"]}
+        ins = [q for q in nd["ports"] if q["direction"] == "input"]
+        sized = [q for q in ins if q["size"] is not None and q["size"][0] == "s" and q["size"][1] not in bound]
+
+        def unused(q):
+            if q["size"] is None:
+                return True
+            rest = {k: v for k, v in nd.items() if k not in ("children", "ports")}
+            text = json.dumps(rest) + json.dumps([x for x in nd["ports"] if x is not q])
+            return json.dumps(q["size"][1]) not in text     # the bare name: link sources and placeholders are plain strings
+        def feeder(q):
+            """The root's own port wired straight into q, when its declared size may be rewritten freely."""
+            if len(path) != 1:
+                return None
+            for s_, t_ in root["connections"]:
+                if t_ == f"{nd['name']}.{q['name']}" and "." not in s_:
+                    rp = [x for x in root["ports"] if x["name"] == s_ and x["direction"] == "input"]
+                    if rp and (rp[0]["size"] is None or rp[0]["size"][0] == "n" or (rp[0]["size"][0] == "s" and rp[0]["size"][1] in root["input_params"])):
+                        return rp[0]
+            return None
+        match = rng.random() < 0.7      # arrange for the constraint to be met by what the root feeds in
+        kind = rng.choice(["dup", "const", "compound"])
+        if kind == "dup" and len(sized) >= 2:
+            pa, pb = rng.sample(sized, 2)
+            if pa["size"][1] != pb["size"][1]:
+                fa, fb = feeder(pa), feeder(pb)
+                nd.update(rename_node_scope(nd, {pb["size"][1]: pa["size"][1]}))
+                if match and fa is not None and fb is not None and fa["size"] is not None:
+                    fb["size"] = fa["size"]
+            continue
+        free = [q for q in ins if (q["size"] is None or q in sized) and unused(q)]
+        if not free:
+            continue
+        q = rng.choice(free)
+        if kind == "compound":
+            bases = [x["size"][1] for x in sized if x is not q] + list(nd["input_params"])
+            bases = [b for b in bases if b not in POW_EXPONENTS]
+            if bases:
+                b = rng.choice(bases)
+                a = E.sym(b)
+                form = rng.choice([lambda x: E.op("mul", E.num(2), x), lambda x: E.op("add", x, E.num(1)), lambda x: E.op("mul", x, x)])
+                fq = feeder(q)
+                q["size"] = form(a)
+                pa = [x for x in sized if x is not q and x["size"][1] == b]
+                fa = feeder(pa[0]) if pa else None
+                if match and fq is not None and fa is not None and fa["size"] is not None:
+                    fq["size"] = form(fa["size"])
+                continue
+        fq = feeder(q)
+        q["size"] = E.num(rng.choice(root_consts) if root_consts and rng.random() < 0.7 else rng.randint(0, 6))
+        if match and fq is not None:
+            fq["size"] = q["size"]
+
+
+def gen_hierarchy(rng, p_constrain=0.3, **kw):
     g = Gen(rng, **kw)
     root, _ = g.build("root", g.max_depth, rng.randint(0, 2), is_root=True)
+    if p_constrain:
+        constrain_sizes(root, rng, p_constrain)
     return root
+
+
+def with_leaf_resource(r, dl):
+    """The routine in which every leaf declares the resource dl = {name, type, of, a, b} with the value a * <its resource
+    `of`> + b (b alone when the leaf has no such resource): what a leaf-only derived resource amounts to."""
+    n = dict(r)
+    if not r["children"]:
+        base = [x["value"] for x in r["resources"] if x["name"] == dl["of"]]
+        val = E.op("add", E.op("mul", E.num(dl["a"]), base[0]), E.num(dl["b"])) if base else E.num(dl["b"])
+        n["resources"] = [x for x in r["resources"] if x["name"] != dl["name"]] + [{"name": dl["name"], "type": dl["type"], "value": val}]
+    else:
+        n["children"] = [with_leaf_resource(c, dl) for c in r["children"]]
+    return n
 
 
 def count_nodes(r):
